@@ -6,10 +6,12 @@
    ordered-choice clause itself: the match ReMatcher::matches selects is the specification's
    selected match - leftmost start, and among the ends from there the first in the priority order
    of the ordered-choice semantics R (earlier alternative first, the preference of an earlier term
-   dominating that of a later one).  Partial: quantifiers (greedy / reluctant preference), the
-   optimised search paths, and the resume position of the scan loops outside the abstract
+   dominating that of a later one), and with quantifiers over fixed-length bodies that match in at
+   most one way: a greedy quantifier yields more repetitions before fewer, a reluctant one fewer
+   before more, exactly as R prescribes (C02_fragment_quantified_selected_match_partial).  Partial:
+   variable-length repeats, the optimised search paths, and the resume position of the scan loops outside the abstract
    good_step interface. *)
-From RX Require Import Base.Prelude Model.Engine Model.Matcher Model.Api Proofs.ScanFacts Model.Op Proofs.EngineFacts Proofs.EngineCorollaries Spec.Syntax Spec.Sem Model.Compiler Proofs.LowerFacts Proofs.FragmentSpec Proofs.OrderFacts.
+From RX Require Import Base.Prelude Model.Engine Model.Matcher Model.Api Proofs.ScanFacts Model.Op Proofs.EngineFacts Proofs.EngineCorollaries Spec.Syntax Spec.Sem Model.Compiler Proofs.LowerFacts Proofs.FragmentSpec Proofs.OrderFacts Proofs.QuantFacts Proofs.QuantLaws Proofs.FixedFacts Proofs.OrderFixed.
 
 Fixpoint ordered (spans : list (nat * nat)) (from : nat) : Prop :=
   match spans with
@@ -70,7 +72,26 @@ Theorem C02_fragment_order_partial :
       forall p e, p <= length input -> map fst (R fl input r p e) = Rop input ci multi o p.
 Proof. exact lowers_order. Qed.
 
+(* the same with greedy and reluctant repeats over fixed-length bodies: [lowerso] ties OGFixed to a
+   greedy RQuant and ORFixed to a reluctant one; [plaino] asks of the body of each repeat that it
+   matches a fixed number of characters in at most one way *)
+Theorem C02_fragment_quantified_selected_match_partial :
+  forall prog input fl o r s,
+    p_op prog = make_sequence o OEnd ->
+    plaino input (p_case prog) (p_multi prog) (p_hasbackrefs prog) (p_maxparens prog) o ->
+    lowerso (p_case prog) fl o r -> s_i fl = p_case prog -> s_m fl = p_multi prog ->
+    (N.of_nat (length input) < umax)%N ->
+    (p_hasbol prog = false /\ p_minlen prog = 0%N /\ p_prefix prog = None /\ p_icc prog = None /\ p_pre prog = []) ->
+    length (sb s) = length (eb s) ->
+    match matches prog input 0 s with
+    | MTrue s' => exists k q e, first_match fl input r (length input + 2) 0 = Some (k, q, e) /\ get_pend s' 0 = Some q
+    | MFalse _ => first_match fl input r (length input + 2) 0 = None
+    | MOut | MPanic _ => False
+    end.
+Proof. exact fragmentq_selected_match. Qed.
+
 Print Assumptions C02_spans_ordered_partial.
 Print Assumptions C02_fragment_leftmost_first_partial.
 Print Assumptions C02_fragment_selected_match_partial.
 Print Assumptions C02_fragment_order_partial.
+Print Assumptions C02_fragment_quantified_selected_match_partial.
